@@ -88,3 +88,21 @@ SPECS['C15'] = dict(
     quick=dict(workers=16, cases=0, size=100, timeout=900),
     thorough=dict(workers=16, cases=0, size=100, timeout=1800),
 )
+
+SPECS['C20'] = dict(
+    kind='native', drivers=['p_c20.cpp'], shims=['sut_inst'], with_lib=True,
+    level='exploration',
+    technique='rapidcheck-generated arrays (length classes x order patterns x key multiplicity) judged by order, permutation and stability oracles',
+    level_text=('Arrays of instants and of events with unique serials are generated over all length classes around the block-merge thresholds '
+                '(0..8193) and six order patterns; the output must be non-decreasing in calendar order with the sentinel rule, a permutation of the '
+                'input, and for events keep equal keys in input order. Sampled, not exhaustive.'),
+    level_note='trusts the re-implemented calendar order in props/p_c20.cpp and the field-copy shim (exact-size heap arrays under ASan)',
+    rule=('case = (instants|events, length n, pattern in {random, presorted, reversed, sawtooth, organ-pipe, nearly sorted}, number of distinct keys, '
+          'seed); a grid of 39 boundary lengths (0,1,2,..,31,32,33,63..65,511..513,1023..1025,2047..2049,4095..4097,8191..8193) x 6 patterns x 5 key '
+          'multiplicities is always run, then rapidcheck cases with lengths 0..4200; keys mix all-day, all-second and millisecond instants on few days. '
+          'non-trivial = n > 32 and fewer distinct keys than elements (so at least one duplicate key); distinct = distinct case descriptor'),
+    assumptions=['for bare instants equal keys are bit-identical, so stability is only observable (and only asserted) for events',
+                 'the comparison order is the one instant.h documents: all-day before timed on the same day, all-second before millisecond values'],
+    quick=dict(workers=16, cases=400, size=100, timeout=900),
+    thorough=dict(workers=16, cases=30000, size=100, timeout=3600),
+)
